@@ -383,7 +383,8 @@ ITEMS = location_types() + budget_types() + error_types() + [
     dict(src=D, path=EN + 'struct VA'),
     dict(src=D, path=EN + 'impl VA/fn expect_map_end', props=['C05', 'C01'],
          ensures=[('C05:closes_exactly_one_mapping_or_fails', '''r is Ok ==> old(self).ev.rest().len() > 0
-                && old(self).ev.rest()[0] is MapEnd && final(self).ev.rest() == old(self).ev.rest().skip(1)''')],
+                && old(self).ev.rest()[0] is MapEnd && final(self).ev.rest() == old(self).ev.rest().skip(1)'''),
+                  ('mode_and_config_kept', 'final(self).map_mode == old(self).map_mode && final(self).cfg == old(self).cfg')],
          canaries=['C05:closes_exactly_one_mapping_or_fails']),
     dict(src=D, path=EN + 'impl de::VariantAccess for VA/fn unit_variant', id='VA::unit_variant',
          impl_header="impl<'de, 'e> VA<'de, 'e>", props=['C05', 'C01'],
@@ -518,5 +519,35 @@ ITEMS = location_types() + budget_types() + error_types() + [
                     if rest0[0] is Scalar { (rest0[0]->Scalar_tag is Null || spec_nullish(rest0[0]->Scalar_value@, rest0[0]->Scalar_style)) && r == vis_map_empty(visitor) }
                     else { rest0[0] is MapStart && r == vis_map_live(visitor, rest0.skip(1), self.cfg) }) })''')],
         canaries=['C05:a_null_like_scalar_is_an_empty_mapping_anything_else_must_start_a_mapping']),
+    # ---- enum variant payloads: the closing `}` of `{Variant: payload}` is checked and consumed, nothing else (C05) ----
+    dict(src=D, path=EN + 'impl de::VariantAccess for VA/fn newtype_variant_seed', id='VA::newtype_variant_seed', impl_header="impl<'de, 'e> VA<'de, 'e>",
+         props=['C05', 'C01'],
+         pre_rewrites=[(r"fn newtype_variant_seed<T>\(mut self, seed: T\) -> Result<T::Value, Error>\s*where\s*T: de::DeserializeSeed<'de>,",
+                        'fn newtype_variant_seed(mut self, seed: ValSeed) -> Result<PayVal, Error>', 1, 'R9')],
+         rewrites=[(r'let defined_location = this\s*\.ev\s*\.peek\(\)\?\s*\.map\(\|ev: &Ev\| ev\.location\(\)\)\s*\.unwrap_or_else\(\|\| this\.ev\.last_location\(\)\);',
+                    'let defined_location = (match this.ev.peek()? { Some(ev) => ev.location(), None => this.ev.last_location() });', 1, 'R18'),
+                   (r'let value = seed\s*\.deserialize\(YamlDeserializer::new\(this\.ev, this\.cfg\)\)\s*\.map_err\(\|e\| \{\s*attach_alias_locations_if_missing\(e, reference_location, defined_location\)\s*\}\)\?;',
+                    'let value = variant_payload_newtype(seed, this.ev, this.cfg, reference_location, defined_location)?;', 1, 'R8+R18')],
+         proofs=[dict(after_re=r'let (value|result) = variant_payload_\w+\([^;]*\)\?;', ghost=True, text='let ghost rest_p = this.ev.rest();'),
+                 dict(before_re=r'Ok\((value|result)\)\s*\}', label='C05:an_externally_tagged_payload_is_followed_by_exactly_the_mapping_end',
+                      text='assert(if this.map_mode { rest_p.len() > 0 && rest_p[0] is MapEnd && this.ev.rest() == rest_p.skip(1) } else { this.ev.rest() == rest_p });')]),
+    dict(src=D, path=EN + 'impl de::VariantAccess for VA/fn tuple_variant', id='VA::tuple_variant', impl_header="impl<'de, 'e> VA<'de, 'e>",
+         props=['C05', 'C01'],
+         pre_rewrites=[(r"fn tuple_variant<Vv>\(mut self, len: usize, visitor: Vv\) -> Result<Vv::Value, Error>\s*where\s*Vv: Visitor<'de>,",
+                        'fn tuple_variant(mut self, len: usize, visitor: MapVis) -> Result<PayVal, Error>', 1, 'R9')],
+         rewrites=[(r'let result =\s*YamlDeserializer::new\(this\.ev, this\.cfg\)\.deserialize_tuple\(len, visitor\)\?;',
+                    'let result = variant_payload_tuple(this.ev, this.cfg, len, visitor)?;', 1, 'R8')],
+         proofs=[dict(after_re=r'let (value|result) = variant_payload_\w+\([^;]*\)\?;', ghost=True, text='let ghost rest_p = this.ev.rest();'),
+                 dict(before_re=r'Ok\((value|result)\)\s*\}', label='C05:an_externally_tagged_payload_is_followed_by_exactly_the_mapping_end',
+                      text='assert(if this.map_mode { rest_p.len() > 0 && rest_p[0] is MapEnd && this.ev.rest() == rest_p.skip(1) } else { this.ev.rest() == rest_p });')]),
+    dict(src=D, path=EN + 'impl de::VariantAccess for VA/fn struct_variant', id='VA::struct_variant', impl_header="impl<'de, 'e> VA<'de, 'e>",
+         props=['C05', 'C01'],
+         pre_rewrites=[(r"fn struct_variant<Vv>\(\s*mut self,\s*fields: &'static \[&'static str\],\s*visitor: Vv,\s*\) -> Result<Vv::Value, Error>\s*where\s*Vv: Visitor<'de>,",
+                        "fn struct_variant(mut self, fields: &'static [&'static str], visitor: MapVis) -> Result<PayVal, Error>", 1, 'R9')],
+         rewrites=[(r'let result = YamlDeserializer::new\(this\.ev, this\.cfg\)\s*\.deserialize_struct\("", fields, visitor\)\?;',
+                    'let result = variant_payload_struct(this.ev, this.cfg, fields, visitor)?;', 1, 'R8')],
+         proofs=[dict(after_re=r'let (value|result) = variant_payload_\w+\([^;]*\)\?;', ghost=True, text='let ghost rest_p = this.ev.rest();'),
+                 dict(before_re=r'Ok\((value|result)\)\s*\}', label='C05:an_externally_tagged_payload_is_followed_by_exactly_the_mapping_end',
+                      text='assert(if this.map_mode { rest_p.len() > 0 && rest_p[0] is MapEnd && this.ev.rest() == rest_p.skip(1) } else { this.ev.rest() == rest_p });')]),
 ]
 ITEMS = [x for x in ITEMS if x is not None]
